@@ -314,6 +314,11 @@ def _check(prop, tier, jobs, verbose, seed, t0, evid_path):
         return EXIT_FAULT
     if undecided or bounded_undecided:
         return EXIT_UNDECIDED
+    if any("@bounded" in k for k in degraded):
+        # a bounded unit left the verified subset on some path: those paths produced no obligations, so "held" cannot
+        # be claimed (on the unchanged tree no unit is degraded)
+        print("  UNDECIDED: %d bounded unit(s) left the verified subset" % sum(1 for k in degraded if "@bounded" in k))
+        return EXIT_UNDECIDED
     strict = getattr(pym, "REQUIRE_UNBOUNDED", [])
     for key in strict:
         if key in degraded:
